@@ -3,7 +3,8 @@
    totals-vs-parts equations over histories are decided per run by the Go monitor + correspondence
    (they were FALSE before the fix of D4: corpus/C10/d4_duplicate_queue_entry.txt must now pass). *)
 From Coq Require Import ZArith Bool List.
-From Sge Require Import Lib.Dec Model.Types Model.Orderbook Proofs.BookFacts.
+From Sge Require Import Lib.Dec Model.Types Model.Orderbook Model.Mint Model.Chain Proofs.BookFacts Proofs.Custody Proofs.BookAPI Proofs.BookInv Proofs.BookHist.
+Import ListNotations.
 Open Scope Z_scope.
 
 Theorem C10_index_new : forall odds, ix_eq (new_book odds).
@@ -18,3 +19,29 @@ Theorem C10_index_withdraw : forall b idx amt b' effs,
   withdraw_participation b idx amt = Some (b', effs) -> ix_eq b -> ix_eq b'.
 Proof. exact withdraw_participation_ix. Qed.
 Print Assumptions C10_index_wager.
+
+(* Over ALL histories of the model (Proofs/BookInv.v, BookHist.v, through the fulfilment loop with its in-memory copies, re-queues
+   and secondary fulfilments): in every reachable state and for every market the number of participations equals the book's
+   counter, their indexes are distinct and lie in 1..counter, the two exposure indexes hold the same entries, exposure keys
+   (outcome, participation) are unique, every current and every archived exposure belongs to an existing participation (and
+   to an outcome of the market), and every fulfilment queue is a duplicate-free list of existing participations whose exposure on
+   that outcome is not yet fulfilled - so no participation is ever visited twice by one wager (the root of D4).
+   Hypotheses: signers are user accounts and the validated constraint bet fee <= minimum bet amount. *)
+Theorem C10_book_structure : forall P bk supply vault MP t0 sw sd ops,
+  pr_bet_fee P <= pr_bet_min P ->
+  bget bk POOL = 0 -> bget bk HOUSEFEE = 0 -> bget bk BETFEE = 0 -> Forall valid_op ops ->
+  forall m x, get_ms (run (init bk supply P vault MP t0 sw sd) ops) m = Some x ->
+  let b := ms_book x in
+  bk_partcnt b = zlen (bk_parts b) /\ NoDup (map p_idx (bk_parts b)) /\ (forall p, In p (bk_parts b) -> 1 <= p_idx p <= bk_partcnt b) /\
+  bk_expo_ix b = bk_expo b /\ NoDup (map ekey (bk_expo b)) /\
+  (forall e, In e (bk_expo b) -> In (e_odds e) (k_odds (ms_mkt x)) /\ exists p, get_part b (e_part e) = Some p) /\
+  (forall h, In h (bk_hist b) -> exists p, get_part b (e_part h) = Some p) /\
+  (forall o q, get_queue b o = Some q ->
+     NoDup q /\ forall i, In i q -> exists p e, get_part b i = Some p /\ ge b o i = Some e /\ e_ful e = false).
+Proof. exact book_structure_over_histories. Qed.
+Print Assumptions C10_book_structure.
+
+(* the transition-level statement: each of the eight local transitions of a market keeps its book well formed *)
+Theorem C10_book_step : forall P x x', pr_bet_fee P <= pr_bet_min P -> mwf x -> Local.mtrans P x x' -> mwf x'.
+Proof. exact mwf_step. Qed.
+Print Assumptions C10_book_step.
